@@ -46,7 +46,8 @@ func init() {
 	add("C05", flushFromWriter, incBeforeCommit, reverseSort, checksumLate, truncAnyway, pruneOne)
 
 	noProgress := Mutant{"scan-loop-without-read", walreplay, "\t\tmsgID, err := wf.readMessageID()\n", "\t\tvar msgID MIDEnum\n\t\tvar err error\n\t\tif len(tgData) > 1<<30 {\n\t\t\tmsgID, err = wf.readMessageID()\n\t\t}\n", "R6.3"}
-	add("C06", noLower, checksumLate, newPanic, noProgress)
+	damagedRecorded := Mutant{"damaged-tg-record-recorded", "executor/walreplay.go", "\t\t\tif err != nil {\n\t\t\t\t// a damaged record (garbage length or bad checksum) has no TG ID and no data:\n\t\t\t\t// skip it instead of recording it under ID 0\n\t\t\t\tbreak // Break out of switch\n\t\t\t}\n", "", "R6.6"}
+	add("C06", noLower, checksumLate, newPanic, noProgress, damagedRecorded)
 
 	ackBeforeFlush := Mutant{"ack-before-flush", wal, "\t\t\t\tif err := wf.FlushToWAL(); err != nil {\n\t\t\t\t\tlog.Error(\"[txnPipe.flushChannel] failed to FlushToWAL: \" + err.Error())\n\t\t\t\t}\n\t\t\t\tf <- struct{}{}\n", "\t\t\t\tf <- struct{}{}\n\t\t\t\tif err := wf.FlushToWAL(); err != nil {\n\t\t\t\t\tlog.Error(\"[txnPipe.flushChannel] failed to FlushToWAL: \" + err.Error())\n\t\t\t\t}\n", "R7.2"}
 	noWait := Mutant{"requester-does-not-wait", wal, "\twf.txnPipe.flushChannel <- f\n\t<-f\n", "\twf.txnPipe.flushChannel <- f\n", "R7.1"}
